@@ -1688,6 +1688,7 @@ def run(ctx):
         wfix_correspondence(ctx, model, cases, results)
         put_correspondence(ctx, model, cases, results)
         region_correspondence(ctx, exe, model, cases, results)
+        dir_correspondence(ctx, model, cases, results)
 
 
 def is_reinit(a):
@@ -1782,6 +1783,102 @@ def region_correspondence(ctx, exe, model, cases, results):
     res.disagree({'what': 'the scroll region of the terminal after the real stream differs from the region the term.c output model (TermOutDefs.v) sets for the text rows of the active window',
                   'input': {'case': sub_case(c, pr)[0], 'keys': keys_repr(c, pr[1] + (1 if pr[0] == 'ins' else 0)), 'probe': list(pr), 'request': 'region %d %d %d %d %d 0' % k},
                   'implementation': list(got), 'model': list(want[k]), 'states that disagree': len(bad), 'violating continuations found': found})
+
+
+def prompt_atom(a):
+    """the keys typed at a `:` `/` `?` prompt (first line of the atom, with the key that ends it), or None"""
+    if a[:1] not in (b':', b'/', b'?') or len(a) < 2:
+        return None
+    for j in range(1, len(a)):
+        if a[j] in (10, 13, 27, 3):
+            return a[1:j + 1]
+    return a[1:]
+
+
+def dir_correspondence(ctx, model, cases, results):
+    """model vs code (coq/DrawDirDefs.v, DrawSplitDefs.v, extracted):
+    * led_prompt on the keys typed at every `:` `/` `?` prompt of the rtl programs leaves the td the states are judged under
+      (td_after) and says `answered` exactly for the prompts that end with Enter;
+    * every visible row of the active window in the states of the rtl programs equals render_row (dir_context under that td,
+      led_pos, the cell array of led_render) of its line -- positions and widths from the reference layout --, and the
+      terminal cursor is in the column vi_pos gives;
+    * geom (vi_switch) gives the rows of the active window that the emulator's scroll region has after the real stream."""
+    res = ctx.res
+    reqs, meta = [], []
+    for ci, c in enumerate(cases):
+        if c.get('profile') != 'rtl':
+            continue
+        for i, a in enumerate(c['atoms']):
+            ab = bytes.fromhex(a)
+            keys = prompt_atom(ab)
+            if keys is None:
+                continue
+            reqs.append('prompt %d %s' % (td_after(c, i), vlib.hx(keys)))
+            meta.append(('prompt', ci, i, td_after(c, i), 0 if cancelled_prompt(ab) or keys[-1:] not in (b'\n', b'\r') else 1))
+    for (ci, pr), r in results.items():
+        c = cases[ci]
+        if pr[0] != 'cmd' or r.get('status') != 'ok' or r.get('top') is None or r.get('left') is None or 'st' not in r:
+            continue
+        if r.get('split'):
+            (woff, h), _ = geometry(c['rows'], True, r.get('act'))
+            reqs.append('geom %d 2 %d' % (c['rows'], r.get('act')))
+            meta.append(('geom', ci, pr, (woff, h), (r['st']['top'], r['st']['bot'])))
+        if c.get('profile') != 'rtl':
+            continue
+        REF.td = r.get('td', 0)
+        (woff, h), _ = geometry(c['rows'], r.get('split'), r.get('act'))
+        buf, top, left, cols = r['buf'], r['top'], r['left'], c['cols']
+        for k in range(h):
+            line = row_text(buf, top + k)
+            if any(ch == '\t' or ch in WIDE or is_ctl(ch) for ch in line):
+                continue
+            lay = layout(line)
+            hi = 1 if line and ord(line[0]) >= 0x80 else 0
+            m = -1 if line[:1] and line[0] in R2L else 1 if line[:1] and line[0].isascii() and (line[0].isalnum() or line[0] == '_') else 0
+            cur = -1
+            if top + k == r['xrow'] and top + k < len(buf) and lay:
+                pos, wid = cursor_cells(buf, r['xrow'], r['xoff'])
+                cur = pos if wid == 1 else -1
+            reqs.append('row %d %d %d %d %d %s %d' % (REF.td, left, cols, hi, m, ';'.join('%d,%d,%d' % (p, w, cell_of(ch)) for ch, p, w in lay) or '-', max(cur, 0)))
+            meta.append(('row', ci, pr, k, cur, r['st']['cp'][woff + k], r['st']['c'], dir_context(line)))
+    if not reqs:
+        return
+    rc, out, err = vlib.run_lines(model, reqs, timeout=300)
+    if rc != 0 or len(out) != len(reqs):
+        res.disagree({'what': 'model_term prompt/row/geom requests failed', 'stderr': err[-500:]})
+        return
+    bad = 0
+    for m, o, q in zip(meta, out, reqs):
+        if m[0] == 'prompt':
+            _, ci, i, td, answered = m
+            res.count('led_prompt correspondence cases' + ('' if answered else ' (cancelled prompt)'))
+            if o != '%d %d' % (td, answered):
+                bad += 1
+                if bad <= 3:
+                    res.disagree({'what': 'the td / answer after a prompt differs from the led_prompt model', 'input': {'case': cases[ci], 'keys': keys_repr(cases[ci], i + 1), 'request': q},
+                                  'implementation': '%d %d' % (td, answered), 'model': o})
+        elif m[0] == 'geom':
+            _, ci, pr, (woff, h), (rt, rb) = m
+            res.count('vi_switch geometry correspondence cases')
+            if o != '%d %d' % (woff, h) or (h >= 2 and (rt, rb) != (woff, woff + h)):
+                bad += 1
+                if bad <= 3:
+                    res.disagree({'what': 'the rows of the active window (scroll region after the real stream) differ from the geometry model of vi_switch', 'input': {'case': sub_case(cases[ci], pr)[0], 'keys': keys_repr(cases[ci], pr[1]), 'request': q},
+                                  'implementation': [rt, rb], 'model': o})
+        else:
+            _, ci, pr, k, cur, seen, col, pdir = m
+            head, _, mcol = o.partition('|')
+            d, _, cells = head.partition(' ')
+            want = [32 if v == '-1' else int(v) for v in cells.split(',')] if cells else []
+            res.count('row layout correspondence rows (render_row)' + (' with base direction -1' if int(d) < 0 else ''))
+            ok = want == list(seen) and int(d) == pdir and (cur < 0 or int(mcol) == col)
+            if cur >= 0:
+                res.count('cursor cell correspondence cases (vi_pos)' + (' with base direction -1' if int(d) < 0 else ''))
+            if not ok:
+                bad += 1
+                if bad <= 3:
+                    res.disagree({'what': 'a row of the window / the terminal cursor column differs from render_row / vi_pos of the text-direction model', 'input': {'case': sub_case(cases[ci], pr)[0], 'keys': keys_repr(cases[ci], pr[1]), 'request': q, 'row': k},
+                                  'implementation': {'row': cells_str(seen), 'cursor column': col}, 'model': o})
 
 
 def atom_kind(a):
